@@ -69,6 +69,16 @@ SCENARIOS = [
      "timing": {"timing_publish_hours_before_next": 30}, "chain": [
         {"a": "Republish"}, {"a": "StepAll"},
         {"a": "Renew"}, {"a": "StepAll"}]},
+    # several objects, then all of them withdrawn at once: the list of
+    # deltas in the notification file shrinks
+    {"id": "trunc", "keys": 240, "top": TOP, "prefix": B_UNDER_A + [
+        {"a": "RoaAdd", "c": "B", "r": ["p1", "a1"]}, {"a": "Pump"},
+        {"a": "RoaAdd", "c": "B", "r": ["p1", "a2"]}, {"a": "Pump"},
+        {"a": "RoaAdd", "c": "B", "r": ["p1", "a3"]}, {"a": "Pump"}],
+     "chain": [
+        {"a": "RoaAdd", "c": "B", "r": ["p1", "a0"]}, {"a": "StepAll"},
+        {"a": "RoaDelta", "c": "B", "add": [],
+         "del": ["p1|a1", "p1|a2", "p1|a3", "p1|a0"]}, {"a": "StepAll"}]},
     # suspend / unsuspend / shrink / remove a child, delete a CA
     {"id": "remove", "keys": 200, "top": TOP, "prefix": WITH_ROA, "chain": [
         {"a": "ChildSuspend", "p": "A", "c": "B"}, {"a": "StepAll"},
@@ -79,7 +89,7 @@ SCENARIOS = [
         {"a": "DeleteCa", "c": "B"}, {"a": "StepAll"}]},
 ]
 
-QUICK_CASES = 80
+QUICK_CASES = 200
 CHUNK = 6
 
 KEEP_OBS = ("load", "logok", "memok", "objsbad", "dk", "srvclean",
@@ -175,20 +185,35 @@ def cut_class(tw, case):
 
 def choose_quick(chk, cases, tw, n):
     """Seeded sample: one case per (operation class, mutation class, mode)
-    first, the rest at random."""
+    first, then one per (operation kind, mutation class, mode), the rest at
+    random."""
     rng = chk.rng
     pool = list(cases)
     rng.shuffle(pool)
-    chosen, seen = [], set()
-    for c in pool:
-        cc = cut_class(tw, c)
-        if cc not in seen:
-            seen.add(cc)
+    chosen, taken = [], set()
+
+    def one_per(key):
+        seen = set()
+        for c in pool:
+            if len(chosen) >= n:
+                return
+            kk = key(c)
+            if kk in seen or c in taken:
+                if kk not in seen and c in taken:
+                    seen.add(kk)
+                continue
+            seen.add(kk)
+            taken.add(c)
             chosen.append(c)
-    rest = [c for c in pool if c not in set(chosen)]
-    if len(chosen) > n:
-        chosen = chosen[:n]
-    chosen += rest[:max(0, n - len(chosen))]
+
+    one_per(lambda c: cut_class(tw, c))
+    one_per(lambda c: (tw[c[0]][c[1]]["kind"],) + cut_class(tw, c)[1:])
+    for c in pool:
+        if len(chosen) >= n:
+            break
+        if c not in taken:
+            taken.add(c)
+            chosen.append(c)
     return chosen
 
 
@@ -224,7 +249,7 @@ def slim(ev):
     if e == "reset":
         return {"ev": e, "case": ev["case"], "kind": ev["kind"],
                 "cls": ev["cls"], "task": ev["task"], "eff": ev["eff"],
-                "later": ev["later"],
+                "later": ev["later"], "later_restart": ev["later_restart"],
                 "seq": [slim_mut(m) for m in ev["seq"]],
                 "pre": slim_obs(ev["pre"])}
     if e == "Fault":
@@ -349,7 +374,8 @@ def describe(case, clause):
         txt += (f"object set and audit log disagree for "
                 f"{o['objsbad']} {json.dumps(o['objsdiff'])}")
     elif clause.startswith("RPClean"):
-        src = p["obs"] if clause.endswith("Pump") else o
+        src = (p["obs"] if clause.endswith("Pump") else
+               fin["obs"] if clause.endswith("Final") else o)
         txt += "relying party: " + "; ".join(src["problems"])[:300]
     elif clause == "AllLoad":
         txt += (f"load={o['load']} logok={o['logok']} memok={o['memok']} "
@@ -395,6 +421,12 @@ def judge(chk, scenarios, cases, verdicts, rejected):
         if key not in verdicts:
             raise vlib.ToolError(f"no verdict for case {key}")
         violated, predicted, maybe = verdicts[key]
+        if "PreStateBad" in violated:
+            # the state before the operation already fails a clause: the
+            # case says nothing about the cut (the scenario or the
+            # observation is at fault, not krill)
+            stats["prebad"] = stats.get("prebad", 0) + 1
+            continue
         if violated:
             stats["bad"] += 1
         for clause in sorted(violated):
@@ -470,8 +502,20 @@ def execute(chk, scenarios, chunks, tag):
     return complete, skipped
 
 
+def extra_findings(chk):
+    """Test aid: VERIF_EXTRA_FINDINGS=<json file> adds entries in the format
+    of known-findings.json for this run (used to show that a seeded
+    mutation is detected next to findings that are not listed yet)."""
+    path = os.environ.get("VERIF_EXTRA_FINDINGS")
+    if path:
+        with open(path) as f:
+            chk.findings += [x for x in json.load(f).get("findings", [])
+                             if x.get("property") == PID]
+
+
 def run(tier, seed):
     chk = vlib.Check(PID, LEVEL, tier, seed)
+    extra_findings(chk)
     chk.assumptions = [
         "a mutation of the disk back-end is atomic (value written to a "
         "temp file, then renamed): cuts are enumerated between mutations, "
@@ -496,6 +540,10 @@ def run(tier, seed):
     ]
     model_bad = model_run(chk)
     scenarios = SCENARIOS
+    only = os.environ.get("VERIF_C08_SCEN")
+    if only:
+        # development aid: restrict the catalogue
+        scenarios = [s for s in SCENARIOS if s["id"] in only.split(",")]
     tw = twins(chk, scenarios)
     cases_all = all_cases(scenarios, tw)
     shapes = {}
@@ -514,6 +562,7 @@ def run(tier, seed):
     vlib.log(f"{len(scenarios)} scenarios, {sum(len(v) for v in tw.values())}"
              f" operation instances, {len(cases_all)} (cut, mode) pairs; "
              f"executing {len(chosen)}")
+    t_run = vlib.time.time()
     cases, skipped = execute(
         chk, scenarios,
         chunks_of(scenarios, chosen, 4 if tier == "quick" else 12), "run")
@@ -522,7 +571,10 @@ def run(tier, seed):
             print(json.dumps(s)[:400])
         raise vlib.ToolError(f"{len(skipped)} cases could not be executed "
                              f"as planned (non-deterministic prefix)")
+    t_val = vlib.time.time()
     verdicts, rejected, states = validate_cases(chk, cases, "run")
+    vlib.log(f"executed in {t_val - t_run:.0f}s, validated by TLC in "
+             f"{vlib.time.time() - t_val:.0f}s")
     chk.cov["traces_validated_against_impl"] = len(verdicts)
     chk.cov["trace_states"] = states
     chk.cov["skipped_cases"] = len(skipped)
@@ -560,6 +612,9 @@ def run(tier, seed):
                     "model_predictions_not_observed":
                         stats["model_pessimistic"],
                     "cases_not_a_step_of_the_model": stats["rejected"]})
+    if stats.get("prebad"):
+        raise vlib.ToolError(f"{stats['prebad']} cases start in a state "
+                             f"that already fails a clause")
     self_test(chk, cases, verdicts)
     chk.cov["exhaustive"] = tier == "thorough"
     chk.cov["rule"] = (
@@ -581,6 +636,7 @@ def replay(path, seed):
         data = json.load(f)
     rp = data["replay"]
     chk = vlib.Check(PID, LEVEL, "quick", seed)
+    extra_findings(chk)
     scen = rp["scenario"]
     cases, skipped = execute(chk, [scen], [scen], "replay")
     if skipped or not cases:
